@@ -27,6 +27,8 @@ type c16Case struct {
 	// RDice: the host registered a stream-parsed custom dice R<expression> (CustomDiceStream.ReadExpr): its operand is
 	// program text like any other
 	RDice bool `json:",omitempty"`
+	// ZeroDice: the host registered a stream parser that reports a match without consuming anything (never a match)
+	ZeroDice bool `json:",omitempty"`
 }
 
 var gateTokens = []string{
@@ -166,6 +168,15 @@ func c16Enumerate(tier string, seed int64, emit func(string, any)) {
 		}
 	}
 	c16Late(emit, plain, strict)
+	// the rest of one input run as the next input (a host that evaluates a line piece by piece); and a custom dice parser that
+	// declines in an unusual way while a macro is in force
+	for _, body := range []string{"1 b2", "1 f", "2 2a10", "1 2c10 + b", "x p1", "1 b2 f"} {
+		for _, c := range []drv.Cfg{plain[0], plain[1], plain[4]} {
+			emit("rest of an input run as the next input", c16Case{Srcs: []string{macro + body, "\x00rest", "b + f", "\x00rest"}, Cfg: c})
+			emit("rest of an input run as the next input", c16Case{Srcs: []string{macro + body, "\x00rest"}, Cfg: c, ZeroDice: true})
+			emit("declining custom dice under a macro", c16Case{Srcs: []string{macro + strings.Fields(body)[len(strings.Fields(body))-1], "b", "f + 2a10", macro + "(" + body, "p1 + 2c10"}, Cfg: c, ZeroDice: true})
+		}
+	}
 }
 
 func c16Late(emit func(string, any), plain []drv.Cfg, strict drv.Cfg) {
@@ -262,8 +273,21 @@ func c16Run(raw json.RawMessage) harn.Result {
 			return ret, "", nil
 		})
 	}
+	if c.ZeroDice {
+		_ = vm.RegCustomDiceParser(func(ctx *ds.Context, st *ds.CustomDiceStream) (*ds.CustomDiceParseResult, error) {
+			return &ds.CustomDiceParseResult{Matched: true}, nil
+		}, func(ctx *ds.Context, groups []string, payload any) (*ds.VMValue, string, error) {
+			return ds.NewIntVal(1), "", nil
+		})
+	}
 	cur := c.Cfg
 	for i, src := range c.Srcs {
+		if src == "\x00rest" {
+			src = vm.RestInput // no macro in it: the switches of the VM decide
+			if strings.TrimSpace(src) == "" {
+				continue
+			}
+		}
 		if i < len(c.Cfgs) {
 			cur = c.Cfgs[i]
 			cur.Apply(vm)
